@@ -136,7 +136,7 @@ class Ctx:
                 gc.collect()
             elif kind == 'advance':
                 world.clock.now += float(action.get('dt', 1.0))
-            elif kind == 'deliver':
+            elif kind in ('deliver', 'extlock'):
                 # the delivery agent drops a file at scheduler position 'at'
                 f = {k: v for k, v in action.items() if k != 'sess'}
                 f.setdefault('at', 0)
